@@ -17,7 +17,8 @@ from geometer.base import KroneckerDelta, LeviCivitaTensor, Tensor, TensorCollec
 
 from . import snapshot
 
-DT = {"i": np.int64, "f": np.float64, "c": np.complex128, "i32": np.int32, "f32": np.float32}
+DT = {"i": np.int64, "f": np.float64, "c": np.complex128, "i32": np.int32, "f32": np.float32, "b": np.bool_,
+      "i8": np.int8}
 
 # ---------------------------------------------------------------------------------------------------------
 # independent definitions of epsilon / delta
@@ -469,8 +470,19 @@ def _b_simplex(w, pts):
     return Simplex(*[w.get(p) for p in pts])
 
 
-def _b_tensor(w, a, cov=True, dt="i"):
-    return Tensor(_arr(a, dt), covariant=cov)
+def _b_tensor(w, a, cov=True, dt="i", layout=None):
+    arr = _arr(a, dt)
+    if layout == "F":
+        arr = np.asfortranarray(arr)
+    elif layout == "T" and arr.ndim >= 2:
+        arr = np.ascontiguousarray(arr.T).T          # same values, reversed strides (a transposed view)
+    elif layout == "S" and arr.ndim >= 1:
+        big = np.zeros(tuple(2 * k for k in arr.shape), dtype=arr.dtype)
+        big[tuple(slice(None, None, 2) for _ in arr.shape)] = arr
+        arr = big[tuple(slice(None, None, 2) for _ in arr.shape)]   # a strided, non-contiguous view
+    if layout:
+        return Tensor(arr, covariant=cov, copy=False)
+    return Tensor(arr, covariant=cov)
 
 
 def _b_ctensor(w, re, im, cov=True):
